@@ -13,13 +13,14 @@ RULE = ('histories = every sequence of override / remove / add operations up to 
         'potable command line (-e/-r/-a, one value per occurrence and several values per occurrence), in lock-step with the reference: the '
         'same edits applied to the ordered text model, whose rendering is parsed/tabulated by the same implementation; observations: '
         'configuration-error vs success, parsed lists, output bytes, --list-items / --list-item-labels / --item-value')
+RULE += "; third file: embedding-only EAM model with an empty [Pair] header; values containing ':' then '=', placeholders, two lines, blanks around them, '' (empty); pin-then-override-the-variable sequences; sequences of 4-5 overrides over three items and of 2-4 same-valued overrides (three groupings); tuple / generator arguments; sections the listing must show once ([Table-Form : t2], [Pair:disabled], [Notes]); malformed items (no '=', no ':', unknown item for --item-value, stray '$'); the manual's options-first argument order (known finding F33)"
 ASSUMPTIONS = [
     'ConfigParser(overrides=, additional=) applies the override list in order (value None = removal) and then the additions: the reference applies the edits in that order and is rejected at the first edit that hand editing could not perform',
     'command line: options of one kind are applied in the order typed, overrides and removals before additions; exact repetitions of one removal are outside the alphabet (the de-duplication of identical options is not specified)',
     'an edit that hand editing could not perform must be a ConfigurationException subclass (API) / "configuration error" with exit status 2 (potable)',
     '--list-items is compared as a multiset of SECTION:KEY=VALUE lines with normalised keys',
 ]
-BOUNDS = {'quick': 'API histories to depth 3 over 28 operations (pair file) / 2 over 14 (EAM file); command line to depth 2',
+BOUNDS = {'quick': 'API histories to depth 3 over 46 operations (pair file) / 2 over 18 and 15 (EAM files); command line to depth 2',
           'thorough': 'API depth 4 (pair file, parser-level observations beyond depth 3), command line depth 3'}
 
 
